@@ -25,7 +25,7 @@ def content(i, R):
     return (bytes([R.randrange(256) for _ in range(64)]) * (n // 64 + 1))[:n]
 
 
-def build(shape, seed=0, password=None, coder="lzma2", header="lzma"):
+def build(shape, seed=0, password=None, coder="lzma2", header="lzma", packcrc=False):
     """shape: {members:[{kind, folder, pos, parent}], nfolders}.  Returns (raw, info) with info[i] = {name, data, size, crc}"""
     R = random.Random(seed)
     names = shape_names(shape)
@@ -51,7 +51,7 @@ def build(shape, seed=0, password=None, coder="lzma2", header="lzma"):
             folders.append({"nfiles": 0, "coders": cs, "crc": "substream"})
             last = f
         folders[-1]["nfiles"] += 1
-    lay = {"files": files, "header": header if not password else "aes", "password": password}
+    lay = {"files": files, "header": header if not password else "aes", "password": password, "packcrc": bool(packcrc)}
     if folders:
         lay["folders"] = folders
     raw, _ = write_archive(lay)
@@ -75,11 +75,13 @@ def _snapshot(root):
     return out
 
 
-def run_calls(py7zr, raw, shape, info, calls, *, target="stream", password=None, ending="close", workdir=None):
+def run_calls(py7zr, raw, shape, info, calls, *, target="stream", password=None, ending="close", workdir=None, has_aes=None, extra_folders=0):
     """calls: list of dicts {name, T:[member index or 0], rec, sink, asset(list|set), slash}.  Returns the trace."""
     names = [x["name"] for x in info]
     idx = {n: i + 1 for i, n in enumerate(names)}
-    trace = [arch_event(shape, info, password is not None, target == "path")]
+    # needs_password() must be true exactly when an encryption coder is present or a password was supplied
+    trace = [arch_event(shape, info, (password is not None) or bool(has_aes), target == "path")]
+    trace[0]["extra"] = int(extra_folders)
     path = None
     if target == "path":
         path = os.path.join(workdir, "a.7z")
